@@ -528,6 +528,11 @@ Definition dw_structure (strict : bool) (chunks : list dw_chunk) : dw_res dw_wal
     end)
   end.
 
+(* length of the file without deep recursion (the extracted code runs on files of hundreds of KB) *)
+Fixpoint dw_len_acc (l : list N) (acc : nat) : nat := match l with [] => acc | _ :: r => dw_len_acc r (S acc) end.
+Definition dw_len (l : list N) : nat := dw_len_acc l O.
+Definition dw_len_N (l : list N) : N := fold_left (fun a _ => N.succ a) l 0.
+
 Definition dw_walk_gen (strict : bool) (f : list N) : dw_res dw_walked :=
   if negb (fm_fh_complete f) then DwErr DwE_file_too_short 0 else
   if negb (fm_fh_ident_ok f) then DwErr DwE_identification 0 else
@@ -535,8 +540,8 @@ Definition dw_walk_gen (strict : bool) (f : list N) : dw_res dw_walked :=
   | None => DwErr DwE_file_header_crc 0
   | Some fh =>
     if negb (fm_version_major (fm_fh_version fh) =? fm_version_major JLS_FORMAT_VERSION_U32) then DwErr DwE_version 0 else
-    if negb (fm_fh_length fh =? N.of_nat (length f)) then DwErr DwE_file_length 0 else
-    match dw_scan (length f) SIZEOF_file_header (skipn (N.to_nat SIZEOF_file_header) f) with
+    if negb (fm_fh_length fh =? dw_len_N f) then DwErr DwE_file_length 0 else
+    match dw_scan (dw_len f) SIZEOF_file_header (skipn (N.to_nat SIZEOF_file_header) f) with
     | DwErr e o => DwErr e o
     | DwOk chunks => dw_structure strict chunks
     end
